@@ -1,5 +1,6 @@
 // harness/C04/h.cpp — value functions of every solver that returns one, and POMDP::Policy executed
 // along all observation histories by following the stored links.
+#include <array>
 #include <AIToolbox/POMDP/Model.hpp>
 #include <AIToolbox/POMDP/SparseModel.hpp>
 #include <AIToolbox/MDP/Model.hpp>
@@ -144,6 +145,29 @@ int main(int argc, char ** argv) {
                 o << "P" << pol.getH() << pol.getO() << pol.sampleAction(b) << hl << al << idl;
                 for (size_t x = 0; x < t.A; ++x)
                     o << pol.getActionProbability(b, x) << pol.getActionProbability(b, x, H) << pol.getActionProbability(b, x, hl);
+            }
+            // two-state problems: probe sampleAction(b, H) just beside every point where two entries of the last list tie
+            // (X <n> then n times: b0 b1 action id)
+            {
+                std::vector<std::array<double, 4>> probes;
+                if (t.S == 2 && H >= 1) {
+                    const auto & last = vf[H];
+                    const size_t n = std::min<size_t>(last.size(), 6);
+                    for (size_t i = 0; i < n; ++i) for (size_t j = i + 1; j < n; ++j) {
+                        const double d0 = last[i].values[0] - last[j].values[0], d1 = last[i].values[1] - last[j].values[1];
+                        if (d0 == d1) continue;
+                        const double p = -d1 / (d0 - d1);       // p*d0 + (1-p)*d1 == 0
+                        if (!(p > 0.0 && p < 1.0)) continue;
+                        for (double delta : {1.0 / 16777216.0, -1.0 / 16777216.0}) {
+                            double q = p + delta; if (!(q > 0.0 && q < 1.0)) continue;
+                            POMDP::Belief bb(2); bb[0] = q; bb[1] = 1.0 - q;
+                            auto [a, id] = pol.sampleAction(bb, H);
+                            probes.push_back({bb[0], bb[1], (double) a, (double) id});
+                        }
+                    }
+                }
+                o << "X" << probes.size();
+                for (auto & pr : probes) o << pr[0] << pr[1] << (size_t) pr[2] << (size_t) pr[3];
             }
         } else if (kind == "csbb") {   // csbb <pomdp> <nw> <w vectors…> <nb> <beliefs…>
             Tables t = readPomdp(c);
